@@ -90,15 +90,19 @@ Ones(n) == [i \in 1..n |-> 1]
 \* sinks share names with the outputs of x ("0", "b": the default output map applies) and characters with the name of x
 Schemes == {[src |-> <<"a", "aa", "x">>,  mid |-> <<"m1", "m2">>, snk |-> <<"0", "b", "ab">>],
             [src |-> <<"aa", "a", "x">>,  mid |-> <<"m1", "m2">>, snk |-> <<"a.a", "ab", "main">>],
-            [src |-> <<"x", "a", "aa">>,  mid |-> <<"m1", "m2">>, snk |-> <<"m", "main", "0">>]}
+            [src |-> <<"x", "a", "aa">>,  mid |-> <<"m1", "m2">>, snk |-> <<"m", "main", "0">>],
+            [src |-> <<"a", "aa", "x">>,  mid |-> <<"m1", "m2">>, snk |-> <<"b.c", "a.b", "c">>]}
 Benign == [src |-> <<"a", "aa", "x">>, mid |-> <<"m1", "m2">>, snk |-> <<"0", "b", "k3">>]
-XNames == {"a", "b", "main", "n"}
+\* names of the expanded node: sharing characters with the sink names, and containing dots themselves (as the nodes made by
+\* an earlier expand_graph or by join_namespaced do)
+XNames == {"a", "b", "main", "n", "a.a", "a.b.c", "n.x"}
 Rank(S, j) == Cardinality({i \in S : i <= j})
 Sources(sh) == {i \in 1..sh.n : IsSource(sh, i)}
 SubNames(sh, sch) == [j \in 1..sh.n |-> IF IsSource(sh, j) THEN sch.src[Rank(Sources(sh), j)]
                                         ELSE IF Terminal(sh, j) THEN sch.snk[Rank(Terminals(sh), j)]
                                         ELSE sch.mid[Rank((1..sh.n) \ (Sources(sh) \cup Terminals(sh)), j)]]
-SubGraph(sh, sch) == MkGraph(sh, SubNames(sh, sch), [j \in 1..sh.n |-> 10 + j], FALSE)
+SubGraphP(sh, sch, base) == MkGraph(sh, SubNames(sh, sch), [j \in 1..sh.n |-> base + j], FALSE)
+SubGraph(sh, sch) == SubGraphP(sh, sch, 10)
 OuterNames(x, xn) == [i \in 1..6 |-> IF i = x THEN xn ELSE <<"n1", "n2", "n3", "n4", "n5", "n6">>[i]]
 \* sub-graphs: simple single-output shapes whose terminal nodes are proper sinks (no outputs, at least one input)
 SubShapes == {sh \in UNION {ShapesWith(n, Ones(n), FALSE) : n \in 2..3} : \A i \in Terminals(sh) : ~IsSource(sh, i)}
@@ -112,7 +116,7 @@ O2 == <<[n |-> 4, outs |-> <<1, 1, 2, 1>>, ins |-> <<<<>>, <<>>, <<Code(1, 1), C
 O3 == <<[n |-> 1, outs |-> <<1>>, ins |-> <<<<>>>>], 1>>                                                    \* x alone
 O4 == <<[n |-> 3, outs |-> <<1, 2, 1>>, ins |-> <<<<>>, <<Code(1, 1)>>, <<Code(2, 2), Code(1, 1)>>>>], 2>>   \* c reads x.b and p
 PairsOf(f) == SetToSeq({<<k, f[k]>> : k \in DOMAIN f})
-ExpCasesFor(ctx, termOut, xn, ssh, sch, allMaps) ==
+ExpCasesFor(ctx, termOut, xn, ssh, sch, allMaps, pre) ==
   LET sh == ctx[1]
       x == ctx[2]
       g == MkGraph(sh, OuterNames(x, xn), Ident, termOut)
@@ -123,18 +127,28 @@ ExpCasesFor(ctx, termOut, xn, ssh, sch, allMaps) ==
       snks == {sub.nodes[j].name : j \in Terminals(ssh)}
       omaps == IF allMaps THEN [xout -> snks] ELSE {f \in [xout -> snks] : \A o1, o2 \in xout : o1 # o2 => f[o1] # f[o2]}
       imaps == IF xin = {} THEN {<<>>} ELSE [srcs -> xin]
-  IN  {[op |-> "expand", g |-> g, x |-> x, sub |-> sub, imapNone |-> FALSE, imap |-> PairsOf(im), omapNone |-> FALSE, omap |-> PairsOf(om)] :
+  IN  {[op |-> "expand", pre |-> pre, g |-> g, x |-> x, sub |-> sub, imapNone |-> FALSE, imap |-> PairsOf(im), omapNone |-> FALSE, omap |-> PairsOf(om)] :
           im \in imaps, om \in omaps}
       \cup (IF xout \subseteq snks
-            THEN {[op |-> "expand", g |-> g, x |-> x, sub |-> sub, imapNone |-> TRUE, imap |-> <<>>, omapNone |-> TRUE, omap |-> <<>>]}
-                 \cup {[op |-> "expand", g |-> g, x |-> x, sub |-> sub, imapNone |-> FALSE, imap |-> PairsOf(im), omapNone |-> TRUE, omap |-> <<>>] : im \in imaps}
+            THEN {[op |-> "expand", pre |-> pre, g |-> g, x |-> x, sub |-> sub, imapNone |-> TRUE, imap |-> <<>>, omapNone |-> TRUE, omap |-> <<>>]}
+                 \cup {[op |-> "expand", pre |-> pre, g |-> g, x |-> x, sub |-> sub, imapNone |-> FALSE, imap |-> PairsOf(im), omapNone |-> TRUE, omap |-> <<>>] : im \in imaps}
             ELSE {})
-      \cup {[op |-> "expand", g |-> g, x |-> x, sub |-> sub, imapNone |-> TRUE, imap |-> <<>>, omapNone |-> FALSE, omap |-> PairsOf(om)] : om \in omaps}
+      \cup {[op |-> "expand", pre |-> pre, g |-> g, x |-> x, sub |-> sub, imapNone |-> TRUE, imap |-> <<>>, omapNone |-> FALSE, omap |-> PairsOf(om)] : om \in omaps}
 \* (A) every outer context x one sub-graph; (B) four outer contexts x every sub-graph x every map; (C) names x names
 ExpandCases ==
-     UNION {ExpCasesFor(ctx, t, "n", Fork, Benign, FALSE) : ctx \in OuterCtx, t \in BOOLEAN}
-\cup UNION {ExpCasesFor(ctx, TRUE, "n", ssh, Benign, TRUE) : ctx \in {O1, O2, O3, O4}, ssh \in SubShapes}
-\cup UNION {ExpCasesFor(ctx, TRUE, xn, ssh, sch, FALSE) : ctx \in {O1, O2}, xn \in XNames, ssh \in {Fork, Chain2}, sch \in Schemes}
+     UNION {ExpCasesFor(ctx, t, "n", Fork, Benign, FALSE, "") : ctx \in OuterCtx, t \in BOOLEAN}
+\cup UNION {ExpCasesFor(ctx, TRUE, "n", ssh, Benign, TRUE, "") : ctx \in {O1, O2, O3, O4}, ssh \in SubShapes}
+\cup UNION {ExpCasesFor(ctx, TRUE, xn, ssh, sch, FALSE, "") : ctx \in {O1, O2}, xn \in XNames, ssh \in {Fork, Chain2}, sch \in Schemes}
+\* (D) the graph is first put into a namespace (join_namespaced(ns = g): every name becomes "ns.<name>"), then expanded
+\cup UNION {ExpCasesFor(ctx, TRUE, xn, Fork, sch, FALSE, "ns") : ctx \in {O1, O2}, xn \in {"n", "a", "a.a"}, sch \in Schemes}
+\* (E) two levels: x is expanded (explicit maps), then the spliced leaf "<x>.<sink>" of the result is expanded in turn
+Expand2Cases ==
+  UNION {UNION {{[op |-> "expand2", pre |-> "", g |-> c1.g, x |-> c1.x, sub |-> c1.sub, imapNone |-> FALSE, imap |-> c1.imap,
+                  omapNone |-> FALSE, omap |-> c1.omap, x2 |-> c1.omap[k][2],
+                  sub2 |-> SubGraphP(Chain2, sch, 20), imap2None |-> TRUE, imap2 |-> <<>>, omap2None |-> FALSE,
+                  omap2 |-> <<<<"0", sch.snk[1]>>>>] : k \in DOMAIN c1.omap, sch \in Schemes}
+                : c1 \in {c \in ExpCasesFor(ctx, TRUE, xn, Fork, Benign, FALSE, "") : ~c.imapNone /\ ~c.omapNone}}
+         : ctx \in {O1, O2}, xn \in {"n", "a", "a.a"}}
 
 \* ======================================================================== reference semantics: the term a node denotes
 Lookup(m, k) == (CHOOSE p \in m : p[1] = k)[2]
@@ -261,16 +275,28 @@ PostExpand(c, r) ==
   \cup (IF SinkTerms(r.g) \subseteq (must \cup subSinkTerms) THEN {} ELSE {"sink_of_result_denotes_nothing_of_the_input"})
   \cup (IF \A cn \in consumers : Wired(cn[1], cn[2]) THEN {} ELSE {"consumer_not_wired_to_selected_leaf"})
 
+\* two levels: the dump of the first result is the graph of the second expansion
+PostExpand2(c, r) ==
+  LET first == PostExpand(c, [g |-> r.g])
+      x2n == XN(c).name \o "." \o c.x2
+      cands == {i \in 1..N(r.g) : r.g.nodes[i].name = x2n}
+  IN IF first # {} THEN first
+     ELSE IF Cardinality(cands) # 1 THEN {"spliced_node_is_not_named_parent_dot_name"}
+     ELSE LET c2 == [g |-> r.g, x |-> CHOOSE i \in cands : TRUE, sub |-> c.sub2, imapNone |-> c.imap2None, imap |-> c.imap2,
+                     omapNone |-> c.omap2None, omap |-> c.omap2]
+          IN {"second_level:" \o b : b \in PostExpand(c2, [g |-> r.g2])}
+
 Post(c, r) == CASE c.op = "copy"   -> PostSame(c, r)
                 [] c.op = "rename" -> PostRename(c, r)
                 [] c.op = "fuse"   -> PostSame(c, r)
                 [] c.op = "dedup"  -> PostDedup(c, r)
                 [] c.op = "split"  -> PostSplit(c, r)
                 [] c.op = "expand" -> PostExpand(c, r)
+                [] c.op = "expand2" -> PostExpand2(c, r)
 
 \* ======================================================================== the two TLC passes
 Generate == JsonSerialize(IOEnv.CASES_FILE,
-               SetToSeq(CopyCases) \o SetToSeq(RenameCases) \o SetToSeq(FuseCases) \o SetToSeq(DedupCasesF) \o SetToSeq(SplitCases) \o SetToSeq(ExpandCases)
+               SetToSeq(CopyCases) \o SetToSeq(RenameCases) \o SetToSeq(FuseCases) \o SetToSeq(DedupCasesF) \o SetToSeq(SplitCases) \o SetToSeq(ExpandCases) \o SetToSeq(Expand2Cases)
                \o SetToSeq(AttrCasesC) \o SetToSeq(AttrCasesF) \o SetToSeq(AttrCasesR)
                \o SetToSeq(AttrCasesD) \o SetToSeq(AttrCasesS))
 Judge ==
